@@ -1,6 +1,7 @@
 """C31 — command sets carry a correct Command Group Length.
 Encoded (container mode): MIR of InMemDicomObject::command_from_iter_with_dict (+ closure) and even_len (dicom-object); elements are
-abstract (symbolic tag, symbolic value length as reported by HasLength::length); BTreeMap is a finite map with symbolic keys."""
+abstract (symbolic tag, symbolic value length as reported by the value's HasLength::length, and an independent symbolic declared
+header length as reported by the element's HasLength::length); BTreeMap is a finite map with symbolic keys."""
 import os, re
 from z3 import *
 import core, mirdump, native
@@ -9,9 +10,10 @@ UNDEF = 0xFFFFFFFF
 
 
 class Elem(core.Struct):
-    def __init__(self, g, e, length):
+    def __init__(self, g, e, length, declared=None):
         core.Struct.__init__(self, [g, e, length])
         self.kind = "Elem"
+        self.declared = length if declared is None else declared     # the length in the element's header (DataElement::new_with_len lets it differ)
 
 
 def run(rep, tier, seed, known, part):
@@ -64,7 +66,8 @@ def run(rep, tier, seed, known, part):
             return core.Ref(core.Cell(("value", d(args[0]))))
         if c.endswith("as HasLength>::length"):
             v = d(args[0])
-            return core.Struct([v[1].f[2]])
+            if isinstance(v, Elem): return core.Struct([v.declared])     # <DataElement as HasLength>::length: the header's declared length
+            return core.Struct([v[1].f[2]])                              # <Value as HasLength>::length: the value's own byte length
         if c == "dicom_core::Length::is_defined":
             return d(args[0]).f[0] != BitVecVal(UNDEF, 32)
         if c.startswith("<dicom_core::PrimitiveValue as From<u32>>::from"):
@@ -81,12 +84,13 @@ def run(rep, tier, seed, known, part):
         gs = [BitVec("g%d" % k, 16) for k in range(n)]
         es = [BitVec("e%d" % k, 16) for k in range(n)]
         ls = [BitVec("l%d" % k, 32) for k in range(n)]
+        hs = [BitVec("h%d" % k, 32) for k in range(n)]          # declared header lengths: unconstrained (new_with_len does not check them)
 
         def build(ctx):
             for k in range(n):
                 ctx.pc += [ULE(ls[k], BitVecVal(1 << 16, 32))]          # value lengths up to 64 KiB (no u32 overflow of the sum)
                 ctx.pc += [Or(gs[k] == 0, gs[k] == 8)]                  # command group or a stray data set group
-            elems = core.VecV([Elem(gs[k], es[k], ls[k]) for k in range(n)])
+            elems = core.VecV([Elem(gs[k], es[k], ls[k], hs[k]) for k in range(n)])
             obj = core.run_fn(F, [elems, ("dict",)], ctx)
             entries = d(obj.f[0]).items
             ctx.entries = entries
@@ -113,11 +117,11 @@ def run(rep, tier, seed, known, part):
             s2 = Solver(); s2.add(vctx.pc + [vctx.got != vctx.total] + [ULE(l, 64) for l in ls])
             if s2.check() == sat: model = s2.model()
             g = lambda x: model.eval(x, model_completion=True).as_long()
-            words = ["cmd_len"]
+            words = ["cmd_len_decl"]
             for k in range(n):
-                words += ["%04X" % g(gs[k]), "%04X" % g(es[k]), min(g(ls[k]), 64)]
+                words += ["%04X" % g(gs[k]), "%04X" % g(es[k]), min(g(ls[k]), 64), g(hs[k])]
             real = nat.ask(*words)
-            rp = rep.replay_file("c31_%d" % n, "// engine=M case=c31\n// native: %s   (tag group, element, value length per element)\n// real answer (group length value, bytes actually written for the other command elements): %s\n" % (" ".join(map(str, words)), real))
+            rp = rep.replay_file("c31_%d" % n, "// engine=M case=c31\n// native: %s   (tag group, element, value length, declared header length per element)\n// real answer (group length value, bytes actually written for the other command elements): %s\n" % (" ".join(map(str, words)), real))
             parts = real.split()
             if len(parts) == 2 and parts[0] != parts[1]:
                 what = "command set from elements %s: Command Group Length = %s but the other command elements occupy %s bytes" % (words[1:], parts[0], parts[1])
